@@ -382,7 +382,7 @@ def run(prog: Program, chk: Check):
     # ---- D the whole-array validator accepts exactly the values the element validator accepts ---------------------
     # _from_dict assigns arrays whole; what a message can hold was put there through the element / scalar validator.  If
     # validate_many refuses a value validate_one accepts (NaN under `not all(isfinite)`), such a message no longer decodes.
-    D = chk.rule("C10-D", "validate_many's per-element refusal predicate is equivalent to validate_one's (same value domain for scalar and whole-array assignment)", 1,
+    D = chk.rule("C10-D", "validate_many's per-element refusal predicate is equivalent to validate_one's (same value domain for scalar and whole-array assignment)", 3,
                  "a value storable element-wise but refused as a whole array breaks from_dict/from_json of a message that holds it")
     VALM = "pyrtma.validators"
     vm = prog.modules.get(VALM)
@@ -419,6 +419,78 @@ def run(prog: Program, chk: Check):
         if one is None or many is None or is_stub(one.node) or is_stub(many.node):
             continue
         t1, tm = refusal_tests(one), refusal_tests(many)
+        for test_ in tm:
+            if any(isinstance(x, ast.Call) and isinstance(x.func, ast.Name) and x.func.id in ("min", "max") for x in ast.walk(test_)) or \
+                    any(isinstance(x, ast.Name) and x.id not in (many.params()[-1], "self") for x in ast.walk(test_)):
+                # an order-statistic form (ints): the extremes are compared with the bounds.  That it refuses every out-of-range
+                # element is C09-Q's; here: it refuses nothing else.  The test touches min(value), max(value), self._min, self._max only
+                # through comparisons, so evaluating it on every ordering of the four over a small grid decides equivalence with
+                # `max > _max or min < _min` (given min <= max).
+                seq = many.params()[-1]
+                loc = {}
+                for a_ in walk_local(many.node):
+                    if isinstance(a_, ast.Assign) and len(a_.targets) == 1:
+                        if isinstance(a_.targets[0], ast.Name):
+                            loc.setdefault(a_.targets[0].id, []).append(a_.value)
+                        elif isinstance(a_.targets[0], ast.Tuple) and isinstance(a_.value, ast.Tuple) and len(a_.targets[0].elts) == len(a_.value.elts):
+                            for t_, v_ in zip(a_.targets[0].elts, a_.value.elts):
+                                if isinstance(t_, ast.Name):
+                                    loc.setdefault(t_.id, []).append(v_)
+
+                class _NA(Exception):
+                    pass
+
+                def ev(e, env):
+                    if isinstance(e, ast.Constant) and isinstance(e.value, (int, bool)):
+                        return e.value
+                    if isinstance(e, ast.Name):
+                        if e.id in loc and len(loc[e.id]) == 1:
+                            return ev(loc[e.id][0], env)
+                        raise _NA
+                    if isinstance(e, ast.Attribute):
+                        if norm(e) in ("self._min", "self._max"):
+                            return env[norm(e)]
+                        raise _NA
+                    if isinstance(e, ast.Call) and isinstance(e.func, ast.Name) and len(e.args) == 1 and not e.keywords:
+                        if e.func.id in ("min", "max") and path_of(e.args[0]) == seq:
+                            return env[e.func.id]
+                        if e.func.id == "int":
+                            return ev(e.args[0], env)
+                        raise _NA
+                    if isinstance(e, ast.UnaryOp) and isinstance(e.op, ast.Not):
+                        return not ev(e.operand, env)
+                    if isinstance(e, ast.BoolOp):
+                        vals = [ev(v, env) for v in e.values]
+                        return all(vals) if isinstance(e.op, ast.And) else any(vals)
+                    if isinstance(e, ast.Compare):
+                        left = ev(e.left, env)
+                        for op, c in zip(e.ops, e.comparators):
+                            r = ev(c, env)
+                            ok_ = {ast.Lt: left < r, ast.LtE: left <= r, ast.Gt: left > r, ast.GtE: left >= r, ast.Eq: left == r, ast.NotEq: left != r}.get(type(op))
+                            if ok_ is None:
+                                raise _NA
+                            if not ok_:
+                                return False
+                            left = r
+                        return True
+                    raise _NA
+
+                try:
+                    witness = None
+                    for lo_ in range(0, 8):
+                        for hi_ in range(lo_, 8):
+                            env = {"self._min": 2, "self._max": 5, "min": lo_, "max": hi_}
+                            got = bool(ev(test_, env))
+                            want = hi_ > 5 or lo_ < 2
+                            if got != want and witness is None:
+                                witness = (lo_, hi_, got)
+                    ncmp += 1
+                    D.decide(witness is None, f"{VALM}::{cls.name}|extremes-vs-bounds", where(many), "the extremes test refuses exactly the sequences with an element outside [_min, _max]",
+                             f"{cls.name}.validate_many: `{norm(test_)}` " + (f"{'refuses' if witness[2] else 'accepts'} a sequence with min={witness[0]}, max={witness[1]} for bounds [2, 5]" if witness else "")
+                             + " - it disagrees with validate_one's range, so a storable array (e.g. all elements equal) cannot be assigned whole / decoded from JSON")
+                except _NA:
+                    pass  # another form: C09-Q decides what it must refuse
+
         if len(t1) != 1 or len(tm) != 1:
             continue
         ep = element_pred(tm[0], many.params()[-1])
@@ -429,7 +501,7 @@ def run(prog: Program, chk: Check):
                     and not any(isinstance(x, (ast.Break, ast.Continue, ast.Return)) for x in walk_local(lp_)):
                 ep = (lp_.target.id, tm[0])
         if ep is None:
-            continue  # an order-statistic form (ints): decided by C09-Q
+            continue  # an order-statistic form: decided above / by C09-Q
         ncmp += 1
         var, pm = ep
         p1 = guards.subst(t1[0], {one.params()[-1]: ast.Name(id="_v", ctx=ast.Load())})
